@@ -8,8 +8,9 @@
 EXTENDS StepGen, Json
 RL == INSTANCE Rules
 CONSTANTS NMax, OMax, ValN, ValO, EmitOn
-VARIABLES fam, opts, m, n, o
-vars == <<fam, opts, m, n, o>>
+VARIABLES fam, opts, m, n, o, theta
+vars == <<fam, opts, m, n, o, theta>>
+DefaultTheta == <<1, 8>>          \* dtheta = pi/8
 
 Methods == {"central", "forward", "backward", "complex", "multicomplex"}
 Mk(c, b, r, ns, nm, off, ex, xa, ch, sc) ==
@@ -37,12 +38,13 @@ SpiralInit ==      \* CStepGenerator(path='spiral', dtheta = pi*t1/t2) ; theta c
   /\ fam = "spiral" /\ m = "forward" /\ n = 1 /\ o = 2
   /\ \E r \in {R(2), R(4), Q(3, 2)}, ns \in {NoneN, 5}, off \in {Zero, R(1)}, b \in {NoneQ, Q(1, 4)} :
         opts = Mk("C", b, r, ns, NoneQ, off, 0, TRUE, TRUE, Q(6, 5))
+  /\ theta \in {DefaultTheta, <<-1, 8>>, <<1, 4>>, <<-1, 3>>}      \* counter-clockwise (default), clockwise, other angles
 
 DerivInit ==
   /\ fam = "deriv" /\ m \in Methods /\ n \in 1..NMax /\ o \in 1..OMax
   /\ \E st \in {NoneQ, Q(1, 8)} : opts = DerivOpts(m, st)
 
-Init == CountInit \/ ValueInit \/ CDefaultInit \/ SpiralInit \/ DerivInit
+Init == ((CountInit \/ ValueInit \/ CDefaultInit \/ DerivInit) /\ theta = DefaultTheta) \/ SpiralInit
 Next == UNCHANGED vars
 
 \* documented: decreasing magnitude
@@ -63,6 +65,7 @@ Rec == [fam |-> fam, opts |-> opts, m |-> m, n |-> n, o |-> o,
         base |-> BaseTerm(opts, m, n, o), nom |-> NomTerm(opts),
         ratio |-> Ratio(opts, n), exact |-> opts.exact,
         minsteps |-> MinNumSteps(m, n, o),
-        angles |-> IF fam = "spiral" THEN [j \in 1..Len(Exponents(opts, m, n, o)) |-> SpiralAngle(<<1, 8>>, Exponents(opts, m, n, o)[j])] ELSE << >>]
+        angles |-> IF fam = "spiral" THEN [j \in 1..Len(Exponents(opts, m, n, o)) |-> SpiralAngle(theta, Exponents(opts, m, n, o)[j])] ELSE << >>,
+        theta |-> theta]
 Emit == EmitOn => PrintT(<<"@@", ToJson(Rec)>>)
 =============================================================================
